@@ -762,6 +762,7 @@ class Exec:
 
         pre_snap, pre_deep = self.snap, self.deep
         pre_held = [len(net.nodes[n].virtQubits) for n in names]
+        pre_free = net.all_locks_free()
         self.book.events = []
         query = self._query(op, op[3] if k == "meas" else 0)    # label -> hid BEFORE the handle table changes
         what_op = "%s [%s]" % (op_text(op), cl["cell"])
@@ -789,7 +790,7 @@ class Exec:
                 fail("atomic", "%s:%s:state-changed" % (k, cause or place),
                      "%s returned %s but changed the state: before %s %s after %s %s" % (
                          what_op, cls, pre_snap, _deep_text(pre_deep), post_snap, _deep_text(post_deep)), hard=True)
-            if not net.all_locks_free():
+            if pre_free and not net.all_locks_free():
                 fail("atomic", "%s:%s:lock-held" % (k, cause or place), "%s returned %s and left locks held: %s" % (
                     what_op, cls, net.lock_flags()), hard=True)
         if exp == "nil":
@@ -804,92 +805,97 @@ class Exec:
                 fail("stale", "stale-handle:after-%s:acts" % why,
                      "%s through a handle that left its node changed the network: before %s %s after %s %s" % (
                          what_op, pre_snap, _deep_text(pre_deep), post_snap, _deep_text(post_deep)), hard=True)
-        elif exp is not None:
-            # ---- a refusal is due
-            if cls is None:
-                kind = "capacity" if cause in ("full", "regs") else "typing"
-                fail(kind, "%s:%s:not-refused" % (k, cause), "%s must be refused (%s) but returned %s" % (what_op, cause, res_s), hard=True)
-            else:
-                self.refused.append((i, cause))
-                if cls not in exp:
-                    key = "remote-error-class:%s" % cls if cl["remote"] else "error-class:%s:%s" % (cause, cls)
-                    fail("typing", key, "%s must be refused with %s%s but the caller got %s: %s" % (
-                        what_op, "/".join(sorted(exp)), " (the error is raised on another node)" if cl["remote"] else "", cls,
-                        S.error_text(r)[:160]))
-        elif cls is not None:
-            # ---- the single register performs this op: it must succeed
-            fail("reference", "%s:%s:%s" % (k, place, cls), "%s is a valid operation (the single register performs it) but the "
-                 "caller got %s: %s" % (what_op, cls, S.error_text(r)[:200]), hard=changed)
-            if cls in ("noQubitError", "quantumError"):
-                if k in ("new", "send"):
-                    fail("capacity", "%s:refused-below-max" % k, "%s refused with %s although held per node is %s, max %d" % (
-                        what_op, cls, ref.count, self.mq))
-                elif k == "g2":
-                    fail("capacity", "g2:%s:capacity-refusal" % place, "%s refused with %s: merges must never fail for capacity "
-                         "reasons" % (what_op, cls))
         else:
-            # ---- success: advance the reference and the handle table
-            if k == "new":
-                if obj is None:
-                    fail("reference", "new:no-handle", "%s returned %s instead of a qubit handle" % (what_op, res_s), hard=True)
+            if exp is not None:
+                # ---- a refusal is due
+                if cls is None:
+                    kind = "capacity" if cause in ("full", "regs") else "typing"
+                    fail(kind, "%s:%s:not-refused" % (k, cause), "%s must be refused (%s) but returned %s" % (what_op, cause, res_s))
                 else:
-                    tok = ref.new()
-                    if self.ideal2:
-                        self.ideal2.new()
-                    self.h[op[2]] = Handle(op[2], r, obj._vc_hid, op[1], tok, obj)
-                    ref.where[tok] = (names[op[1]], obj.num)
-                    ref.count[op[1]] += 1
-            elif k == "g1":
-                if res_s != "nil":
-                    fail("reference", "g1:%s:answers" % place, "%s returned %s" % (what_op, res_s))
-                h = self.h[op[1]]
-                ref.g1(h.tok, op[2])
-                if self.ideal2:
-                    self.ideal2.g1(ref.live.index(h.tok), op[2])
-            elif k == "g2":
-                if res_s != "nil":
-                    fail("reference", "g2:%s:answers" % place, "%s returned %s" % (what_op, res_s))
-                hc, ht = self.h[op[1]], self.h[op[2]]
-                ref.g2(hc.tok, ht.tok, op[3])
-                if self.ideal2:
-                    self.ideal2.g2(ref.live.index(hc.tok), ref.live.index(ht.tok), op[3])
-            elif k == "send":
-                h = self.h[op[1]]
-                if not res_s.startswith("num"):
-                    fail("reference", "send:%s:no-number" % place, "%s returned %s instead of the new virtual id" % (what_op, res_s), hard=True)
-                else:
-                    b = op[2]
-                    nref = net.run(self.cl[b].callRemote("get_virtual_ref", r))
-                    net.settle()
-                    nobj = net.resolve(nref)
-                    if not isinstance(nobj, _NS.V.virtualQubit):
-                        fail("reference", "send:%s:lost" % place, "%s returned virtual id %d, which the receiver does not hold" % (
-                            what_op, r), hard=True)
+                    self.refused.append((i, cause))
+                    if cls not in exp:
+                        key = "remote-error-class:%s" % cls if cl["remote"] else "error-class:%s:%s" % (cause, cls)
+                        fail("typing", key, "%s must be refused with %s%s but the caller got %s: %s" % (
+                            what_op, "/".join(sorted(exp)), " (the error is raised on another node)" if cl["remote"] else "", cls,
+                            S.error_text(r)[:160]))
+            elif cls is not None:
+                # ---- the single register performs this op: it must succeed
+                fail("reference", "%s:%s:%s" % (k, place, cls), "%s is a valid operation (the single register performs it) but "
+                     "the caller got %s: %s" % (what_op, cls, S.error_text(r)[:200]), hard=changed)
+                if cls in ("noQubitError", "quantumError"):
+                    if k in ("new", "send"):
+                        fail("capacity", "%s:refused-below-max" % k, "%s refused with %s although held per node is %s (max %d) and "
+                             "the node has %d registers (max %d)" % (what_op, cls, ref.count, self.mq,
+                                                                      len(net.nodes[names[op[1] if k == "new" else op[2]]].registers), self.mr))
+                    elif k == "g2":
+                        fail("capacity", "g2:%s:capacity-refusal" % place, "%s refused with %s: merges must never fail for "
+                             "capacity reasons" % (what_op, cls))
+            if cls is None:
+                # ---- the op was carried out (whether or not it should have been): advance the reference and the
+                # handle table by what the caller was told, so that the accounting follows the reported results
+                if k == "new":
+                    if obj is None:
+                        fail("reference", "new:no-handle", "%s returned %s instead of a qubit handle" % (what_op, res_s), hard=True)
                     else:
-                        h.stale = "send"
-                        self.h[op[3]] = Handle(op[3], nref, getattr(nobj, "_vc_hid", -1), b, h.tok, nobj)
-                        ref.where[h.tok] = (names[b], r)
-                        ref.count[h.node] -= 1
-                        ref.count[b] += 1
-            elif k == "meas":
-                h = self.h[op[1]]
-                if not res_s.startswith("outcome"):
-                    fail("reference", "meas:%s:no-outcome" % place, "%s returned %s instead of an outcome" % (what_op, res_s), hard=True)
-                else:
-                    o = int(r)
-                    if ref.prob(h.tok, o) < 1e-9:
-                        fail("reference", "meas:%s:impossible-outcome" % place, "%s reported outcome %d, which has probability 0 in "
-                             "the single-register reference" % (what_op, o), hard=True)
-                    else:
+                        tok = ref.new()
                         if self.ideal2:
-                            o2 = self.ideal2.meas(ref.live.index(h.tok), bool(op[2]), o)
-                            if o2 != o:
-                                fail("reference", "meas:%s:ideal-register-disagrees" % place, "%s reported %d, the ideal "
-                                     "StabilizerState register gives %d with certainty" % (what_op, o, o2), hard=True)
-                        ref.meas(h.tok, bool(op[2]), o)
-                        if not op[2]:
-                            h.stale = "measure"
+                            self.ideal2.new()
+                        self.h[op[2]] = Handle(op[2], r, obj._vc_hid, op[1], tok, obj)
+                        ref.where[tok] = (names[op[1]], obj.num)
+                        ref.count[op[1]] += 1
+                elif k == "g1":
+                    if res_s != "nil":
+                        fail("reference", "g1:%s:answers" % place, "%s returned %s" % (what_op, res_s))
+                    h = self.h[op[1]]
+                    if op[2] in U.U1:
+                        ref.g1(h.tok, op[2])
+                        if self.ideal2:
+                            self.ideal2.g1(ref.live.index(h.tok), op[2])
+                elif k == "g2":
+                    if res_s != "nil":
+                        fail("reference", "g2:%s:answers" % place, "%s returned %s" % (what_op, res_s))
+                    hc, ht = self.h[op[1]], self.h[op[2]]
+                    if hc is not ht:
+                        ref.g2(hc.tok, ht.tok, op[3])
+                        if self.ideal2:
+                            self.ideal2.g2(ref.live.index(hc.tok), ref.live.index(ht.tok), op[3])
+                elif k == "send":
+                    h = self.h[op[1]]
+                    if not res_s.startswith("num") or op[2] < 0:
+                        fail("reference", "send:%s:no-number" % place, "%s returned %s instead of the new virtual id" % (what_op, res_s), hard=True)
+                    else:
+                        b = op[2]
+                        nref = net.run(self.cl[b].callRemote("get_virtual_ref", r))
+                        net.settle()
+                        nobj = net.resolve(nref)
+                        if not isinstance(nobj, _NS.V.virtualQubit):
+                            fail("reference", "send:%s:lost" % place, "%s returned virtual id %d, which the receiver does not hold" % (
+                                what_op, r), hard=True)
+                        else:
+                            h.stale = "send"
+                            self.h[op[3]] = Handle(op[3], nref, getattr(nobj, "_vc_hid", -1), b, h.tok, nobj)
+                            ref.where[h.tok] = (names[b], r)
                             ref.count[h.node] -= 1
+                            ref.count[b] += 1
+                elif k == "meas":
+                    h = self.h[op[1]]
+                    if not res_s.startswith("outcome"):
+                        fail("reference", "meas:%s:no-outcome" % place, "%s returned %s instead of an outcome" % (what_op, res_s), hard=True)
+                    else:
+                        o = int(r)
+                        if ref.prob(h.tok, o) < 1e-9:
+                            fail("reference", "meas:%s:impossible-outcome" % place, "%s reported outcome %d, which has probability 0 "
+                                 "in the single-register reference" % (what_op, o), hard=True)
+                        else:
+                            if self.ideal2:
+                                o2 = self.ideal2.meas(ref.live.index(h.tok), bool(op[2]), o)
+                                if o2 != o:
+                                    fail("reference", "meas:%s:ideal-register-disagrees" % place, "%s reported %d, the ideal "
+                                         "StabilizerState register gives %d with certainty" % (what_op, o, o2), hard=True)
+                            ref.meas(h.tok, bool(op[2]), o)
+                            if not op[2]:
+                                h.stale = "measure"
+                                ref.count[h.node] -= 1
 
         # ---- C02: population accounting (plain counters vs the real lists)
         post_held = [len(net.nodes[n].virtQubits) for n in names]
@@ -905,25 +911,24 @@ class Exec:
                         why = hh.stale
                 fail("stale", "stale-handle:after-%s:active" % why, "after %s: %s" % (what_op, text))
             else:
-                fail(kind, key, "after %s: %s" % (what_op, text), hard=True)
+                fail(kind, key, "after %s: %s" % (what_op, text))
         # ---- C01: the reference register
-        if not self.dead or self.dead.startswith("stale"):
-            rows, why = ref.global_rows(net)
-            msg = why if rows is None else U.check_generators(ref.n(), rows, ref.v)
-            if msg is None and self.ideal2 and not self.ideal2.same_group(ref.n(), rows):
-                msg = "the ideal StabilizerState register has a different stabilizer group"
-            if msg is not None:
-                if exp == "nil":
-                    fail("stale", "stale-handle:after-%s:acts" % place[len("stale-"):], "%s through a handle that left its node "
-                         "changed the joint state: %s (registers: %s)" % (what_op, msg, _deep_text(post_deep)), hard=True)
-                else:
-                    fail("reference", "state:%s:%s" % (k, place), "after %s the joint state differs from the single register: %s "
-                         "(registers: %s)" % (what_op, msg, _deep_text(post_deep)), hard=True)
-                for (j, c) in self.refused:
-                    if j < i and exp != "nil":
-                        fail("followup", "after-refusal:%s:state:%s:%s" % (c, k, place),
-                             "after the refusal at op %d (%s), %s no longer matches the single register: %s" % (j, c, what_op, msg))
-                        break
+        rows, why = ref.global_rows(net)
+        msg = why if rows is None else U.check_generators(ref.n(), rows, ref.v)
+        if msg is None and self.ideal2 and not self.ideal2.same_group(ref.n(), rows):
+            msg = "the ideal StabilizerState register has a different stabilizer group"
+        if msg is not None:
+            if exp == "nil":
+                fail("stale", "stale-handle:after-%s:acts" % place[len("stale-"):], "%s through a handle that left its node "
+                     "changed the joint state: %s (registers: %s)" % (what_op, msg, _deep_text(post_deep)), hard=True)
+            else:
+                fail("reference", "state:%s:%s" % (k, place), "after %s the joint state differs from the single register: %s "
+                     "(registers: %s)" % (what_op, msg, _deep_text(post_deep)), hard=True)
+            for (j, c) in self.refused:
+                if j < i and exp != "nil":
+                    fail("followup", "after-refusal:%s:state:%s:%s" % (c, k, place),
+                         "after the refusal at op %d (%s), %s no longer matches the single register: %s" % (j, c, what_op, msg))
+                    break
         self.snap, self.deep = post_snap, post_deep
         self.ops.append(op)
         rec = {"q": query, "impl": "%s | %s | %s" % (res_s, " ".join(self.book.events), post_snap),
@@ -1505,6 +1510,7 @@ def alphabet(ex):
     hs = sorted(ex.h.values(), key=lambda h: h.lab)
     for h in hs:
         ops.append(["g1", h.lab, "H"])
+        ops.append(["g1", h.lab, "X"])
         ops.append(["g1", h.lab, "T"])
         ops.append(["meas", h.lab, 0, 1])
         ops.append(["meas", h.lab, 1, 1])
@@ -1630,7 +1636,7 @@ def run_jobs(jobs, parallel):
 # ---------------------------------------------------------------------------
 
 def fails_with(prog, kind, key):
-    ex = run_program(prog)
+    ex = run_program(prog, ideal2=True)
     for (i, kd, ky, what) in ex.fails:
         if kd == kind and ky == key:
             p = ex.program()
@@ -1747,12 +1753,109 @@ def tie(res, outs, what):
             continue
         p = dict(outs[oi]["prog"])
         p["ops"] = p["ops"][:j + 1]
+        if len(seen) <= 4:
+            p, j, g, impl = shrink_tie(p, parts, cell, g, impl)
         res.tie_break("%s: model and implementation differ in %s at op %d (%s, cell %s)" % (
             what, "+".join(parts) or "?", j, op_text(p["ops"][j]), cell),
-            {"program": p, "text": prog_text(p), "query": outs[oi]["recs"][j][0]}, canon_model(g), impl)
+            {"program": p, "text": prog_text(p)}, canon_model(g), impl)
     if broken:
         res.notes.append("tie: %d programs disagree with the model; distinct signatures: %s" % (
             len(broken), {"%s@%s" % ("+".join(s[0]), s[1]): n for s, n in seen.items()}))
+
+
+
+def _first_diff(outs):
+    """[(op index, model line, impl line, parts, cell) or None] per program"""
+    lines, index = [], []
+    for oi, o in enumerate(outs):
+        p = o["prog"]
+        lines.append("init " + " ".join("%d,%d" % (p["max_qubits"], p["max_regs"]) for _ in range(p["nodes"])))
+        index.append(None)
+        for j, (q, impl) in enumerate(o["recs"]):
+            if q is not None:
+                lines.append(q)
+                index.append((oi, j))
+    got = core.lean_run("vnet", lines)
+    out = [None] * len(outs)
+    for ix, g in zip(index, got):
+        if ix is None or out[ix[0]] is not None:
+            continue
+        oi, j = ix
+        impl = outs[oi]["recs"][j][1]
+        if canon_model(g) != impl:
+            gp, ip = canon_model(g).split(" | "), impl.split(" | ")
+            parts = [nm for nm, a, b in zip(("result", "engine-calls", "snapshot"), gp + [""] * 3, ip + [""] * 3) if a != b]
+            out[oi] = (j, g, impl, parts, outs[oi]["cells"][j])
+    return out
+
+
+def shrink_tie(prog, parts, cell, g, impl, rounds=12):
+    """delta debugging of a model/implementation disagreement: per round all
+    single-op removals are executed on the real code and sent to the driver in
+    ONE batch; a candidate is kept if it still disagrees in the same parts at
+    an op of the same coverage cell"""
+    best = (prog, len(prog["ops"]) - 1, g, impl)
+    for _ in range(rounds):
+        ops = best[0]["ops"]
+        cands = []
+        for s in range(len(ops) - 1):
+            c = dict(best[0])
+            c["ops"] = ops[:s] + ops[s + 1:]
+            cands.append(c)
+        if not cands:
+            break
+        outs = [_out(run_program(c), "shrink") for c in cands]
+        hit = None
+        for o, d in zip(outs, _first_diff(outs)):
+            if d is not None and d[3] == parts and d[4] == cell:
+                p = dict(o["prog"])
+                p["ops"] = p["ops"][:d[0] + 1]
+                if len(p["ops"]) < len(best[0]["ops"]):
+                    hit = (p, d[0], d[1], d[2])
+                    break
+        if hit is None:
+            break
+        best = hit
+    return best
+
+
+def search(ctx, res, broken, prop):
+    """targeted failing-input search around disagreeing inputs (DESIGN C01):
+    every program on which model and implementation disagree is extended with
+    distinguishing suffixes (a basis change and a measurement on every qubit,
+    a two-qubit gate on every pair, then destructive measurements) and judged
+    by the oracles of this check"""
+    own = OWN[prop]
+    tried = 0
+    for tb in res.tie_breaks[:8]:
+        prog = tb["input"].get("program") if isinstance(tb.get("input"), dict) else None
+        if not prog:
+            continue
+        labels = [op[2] for op in prog["ops"] if op[0] == "new"] + [op[3] for op in prog["ops"] if op[0] == "send"]
+        for variant in range(3):
+            rng = random.Random(variant)
+            suffix = []
+            for l in labels:
+                suffix.append(["g1", l, ["H", "K", "X"][variant]])
+                suffix.append(["meas", l, 1, rng.randrange(2)])
+            pairs = [(a, b) for a in labels for b in labels if a != b]
+            rng.shuffle(pairs)
+            for a, b in pairs[:30]:
+                suffix.append(["g2", a, b, rng.choice(G2S)])
+                suffix.append(["meas", b, 1, rng.randrange(2)])
+            for l in labels:
+                suffix.append(["meas", l, 0, rng.randrange(2)])
+            p = dict(prog)
+            p["ops"] = list(prog["ops"]) + suffix
+            ex = run_program(p, ideal2=True)
+            tried += 1
+            for (i, kind, key, what) in ex.fails:
+                if kind in own:
+                    small, what2 = shrink(dict(ex.program(), ops=ex.program()["ops"][:i + 1]), kind, key, budget_s=10)
+                    res.violation(key, what2 or what, {"program": small, "text": prog_text(small), "kind": kind,
+                                                       "found_by": "suffix search around a model/implementation disagreement"})
+                    return
+    res.notes.append("targeted search: %d suffix-extended programs around the disagreeing inputs, no oracle failure" % tried)
 
 
 # ---------------------------------------------------------------------------
@@ -1818,12 +1921,17 @@ def run_check(ctx, prop):
         outs = [run_job(("static", "replay", prog, True), {})]
     else:
         outs = run_jobs(build_jobs(ctx, prop), ctx.thorough)
+        small = [(1, 1), (2, 1), (2, 2)] if prop == "C07" else [(2, 2), (2, 100)]
         if ctx.thorough:
-            caps = [(2, 2), (2, 100)] if prop != "C07" else [(1, 1), (2, 1), (2, 2)]
-            outs += exhaustive(caps)
-            res.exhaustive = True
-            res.notes.append("exhaustive: every program of length <= 4 over 2 nodes (alphabet: new, H, T, measure in place / "
-                             "destructive, send, CNOT incl. control = target and stale handles) for capacities %s" % caps)
+            plan = [(2, 4, small + [(3, 1)]), (2, 5, [(2, 2)]), (3, 4, [(2, 2)])]
+        else:
+            plan = [(2, 3, small[-2:])]
+        for nodes, depth, caps in plan:
+            outs += exhaustive(caps, nodes=nodes, depth=depth)
+            res.notes.append("exhaustive: every program of length <= %d over %d nodes for (max_qubits, max_regs) in %s; alphabet: "
+                             "new at every node, H / X / T, measure in place / destructive (coin 1), send to every other node, CNOT "
+                             "between every ordered pair of handles of one node incl. control = target, through live AND stale "
+                             "handles" % (depth, nodes, caps))
     # ---- fold
     cand = {}      # (kind, key) -> (size, prog-upto-failure, what, count)
     nops = 0
